@@ -621,14 +621,14 @@ func (exec *Executor) executeDecimalMethod(
 		rounded = math.Round(scaled) / ratio
 	}
 
-	// Count the digits before the decimal point.
+	// Count the digits before the decimal point, not including leading zeros.
 	numStr := strconv.FormatFloat(rounded, 'f', -1, 64)
 	count := 0
 	for _, ch := range numStr {
 		if ch == '.' {
 			break
 		}
-		if '1' <= ch && ch <= '9' {
+		if '1' <= ch && ch <= '9' || (ch == '0' && count > 0) {
 			count++
 		}
 	}
